@@ -17,7 +17,13 @@ I8(b, i) == IF b[i + 1] >= 128 THEN b[i + 1] - 256 ELSE b[i + 1]
 \* offsets and lengths of real fonts are far below 2^31 (TLC integers are 32-bit): a larger value reads as -1
 U32(b, i) == IF b[i + 1] >= 128 THEN 0 - 1 ELSE ((b[i + 1] * 256 + b[i + 2]) * 256 + b[i + 3]) * 256 + b[i + 4]
 Bit(x, k) == (x \div (2 ^ k)) % 2 = 1
-Rd(path, off, len) == IF len <= 0 \/ off < 0 THEN <<>> ELSE FileSlice(path, off, len)
+\* a font source is a file (read piecewise through the primitive) or bytes already at hand (a font program taken out of a PDF)
+FileSrc(path) == [file |-> path, b |-> <<>>]
+MemSrc(bytes) == [file |-> "", b |-> bytes]
+SrcLen(src) == IF src.file # "" THEN FileLen(src.file) ELSE Len(src.b)
+Rd(src, off, len) == IF len <= 0 \/ off < 0 THEN <<>>
+                     ELSE IF src.file # "" THEN FileSlice(src.file, off, len)
+                     ELSE SubSeq(src.b, off + 1, IF off + len > Len(src.b) THEN Len(src.b) ELSE off + len)
 
 T_head == <<104, 101, 97, 100>>  T_hhea == <<104, 104, 101, 97>>  T_maxp == <<109, 97, 120, 112>>  T_hmtx == <<104, 109, 116, 120>>
 T_loca == <<108, 111, 99, 97>>   T_glyf == <<103, 108, 121, 102>> T_cmap == <<99, 109, 97, 112>>   T_CFF == <<67, 70, 70, 32>>
@@ -32,7 +38,7 @@ Tab(dir, tag) == LET S == {i \in 1..Len(dir) : dir[i].tag = tag} IN IF S = {} TH
 Font(path) ==
   LET dir == Dir(path)
       head == Rd(path, Tab(dir, T_head).off, 54)  hhea == Rd(path, Tab(dir, T_hhea).off, 36)  maxp == Rd(path, Tab(dir, T_maxp).off, 6)
-  IN [path |-> path, size |-> FileLen(path), version |-> Rd(path, 0, 4), dir |-> dir,
+  IN [path |-> path, size |-> SrcLen(path), version |-> Rd(path, 0, 4), dir |-> dir,
       upem |-> IF Len(head) = 54 THEN U16(head, 18) ELSE 0, locFmt |-> IF Len(head) = 54 THEN I16(head, 50) ELSE 0 - 1,
       nHM |-> IF Len(hhea) = 36 THEN U16(hhea, 34) ELSE 0, nGlyphs |-> IF Len(maxp) = 6 THEN U16(maxp, 4) ELSE 0,
       loca |-> Tab(dir, T_loca), glyf |-> Tab(dir, T_glyf), hmtx |-> Tab(dir, T_hmtx), cmap |-> Tab(dir, T_cmap), cff |-> Tab(dir, T_CFF)]
